@@ -733,39 +733,43 @@ func c13Direct(c *Ctx, r *Result, idx int, seed int64, nearMiss, overlap bool, c
 	if anyFile {
 		os.MkdirAll(outsPath, 0o775)
 	}
-	var realText bytes.Buffer
-	realText.WriteByte('{')
 	var errs []string
 	panicked := ""
-	for i, p := range stage.OutParams.List {
-		val := []byte(outs.Vals[i].String())
-		var frag []byte
-		k := p.IsFile()
-		if (k == syntax.KindIsFile || k == syntax.KindIsDirectory) && string(val) != "null" {
-			func() {
-				defer func() {
-					if e := recover(); e != nil {
-						panicked = fmt.Sprint(e)
+	runReal := func() string {
+		var realText bytes.Buffer
+		realText.WriteByte('{')
+		for i, p := range stage.OutParams.List {
+			val := []byte(outs.Vals[i].String())
+			var frag []byte
+			k := p.IsFile()
+			if (k == syntax.KindIsFile || k == syntax.KindIsDirectory) && string(val) != "null" {
+				func() {
+					defer func() {
+						if e := recover(); e != nil {
+							panicked = fmt.Sprint(e)
+						}
+					}()
+					var err error
+					frag, err = core.VerifMoveOutFiles(&p.StructMember, val, lookup, ps, outsPath)
+					if err != nil {
+						errs = append(errs, err.Error())
 					}
 				}()
-				var err error
-				frag, err = core.VerifMoveOutFiles(&p.StructMember, val, lookup, ps, outsPath)
-				if err != nil {
-					errs = append(errs, err.Error())
-				}
-			}()
-		} else {
-			frag = val
+			} else {
+				frag = val
+			}
+			if i > 0 {
+				realText.WriteByte(',')
+			}
+			kb, _ := json.Marshal(p.Id)
+			realText.Write(kb)
+			realText.WriteByte(':')
+			realText.Write(frag)
 		}
-		if i > 0 {
-			realText.WriteByte(',')
-		}
-		kb, _ := json.Marshal(p.Id)
-		realText.Write(kb)
-		realText.WriteByte(':')
-		realText.Write(frag)
+		realText.WriteByte('}')
+		return strings.ReplaceAll(realText.String(), "[\n", "[")
 	}
-	realText.WriteByte('}')
+	realStr := runReal()
 	after := c13Snapshot([]string{root}, cs, nil)
 	tags := make([]string, 0, len(g.tags))
 	inDomain := true
@@ -797,7 +801,6 @@ func c13Direct(c *Ctx, r *Result, idx int, seed int64, nearMiss, overlap bool, c
 		r.violate(Violation{Kind: "property", Key: "C13:panic", What: "moveOutFiles panicked: " + panicked, Input: cas})
 		return true
 	}
-	realStr := strings.ReplaceAll(realText.String(), "[\n", "[")
 
 	// ---- property monitor on the real result ----
 	post, perr := c13ParseJSON([]byte(realStr))
@@ -875,6 +878,56 @@ func c13Direct(c *Ctx, r *Result, idx int, seed int64, nearMiss, overlap bool, c
 		}
 		r.violate(Violation{Kind: "correspondence", Key: "C13:model-tree", Broken: "correspondence moveOut (file tree)",
 			What: "file tree after post-processing differs between the real code and the model", Input: cas, Impl: d})
+	}
+	// ---- interrupted post-process + restart: the same record once more on the resulting tree ----
+	if idx%4 == 1 && inDomain {
+		r.hist("direct:second-pass")
+		realStr2 := runReal()
+		after2 := c13Snapshot([]string{root}, cs, nil)
+		if panicked != "" {
+			r.violate(Violation{Kind: "property", Key: "C13:panic", What: "moveOutFiles panicked on the second pass: " + panicked, Input: cas})
+			return true
+		}
+		if post2, err := c13ParseJSON([]byte(realStr2)); err != nil {
+			r.violate(Violation{Kind: "property", Key: "C13:invalid-json", What: "second pass: rewritten record is not valid JSON: " + err.Error(),
+				Input: cas, Impl: strings.ReplaceAll(realStr2, root, "$ROOT")})
+		} else {
+			mon2 := newC13Mon(ps)
+			mon2.pre, mon2.kind, mon2.occ = mon.pre, mon.kind, mon.occ
+			for _, p := range params {
+				mon2.walk(p.Id, p, outs.get(p.Id), post2.get(p.Id), outsPath)
+			}
+			if len(mon2.alias) == 0 && len(mon.alias) > 0 {
+				r.hist("direct:second-pass:aliased-value-now-own-path")
+			}
+			if len(mon2.fails) > 0 {
+				for i := range mon2.fails {
+					mon2.fails[i] = strings.ReplaceAll(mon2.fails[i], root, "$ROOT")
+				}
+				r.violate(Violation{Kind: "property", Key: "C13:materialise-after-restart",
+					What:  "after post-processing the same record a second time (interrupted post-process + restart): " + strings.Join(mon2.fails, "; "),
+					Input: cas, Impl: strings.ReplaceAll(realStr2, root, "$ROOT")})
+			}
+		}
+		reply2 := c.Drv.Ask("C13.run", "o2", "g", hx(ps), hx(outsPath), c13EncParams(params), outs.encStr(), before.enc(c13Ancestors(root)))
+		parts2 := strings.Split(reply2, "\t")
+		if len(parts2) == 2 {
+			if m2 := unhx(parts2[0]); m2 != realStr2 {
+				r.violate(Violation{Kind: "correspondence", Key: "C13:model-json-restart", Broken: "correspondence moveOut, second pass (rewritten JSON)",
+					What: "second pass over the same record: rewritten JSON differs between the real code and the model", Input: cas,
+					Impl: strings.ReplaceAll(realStr2, root, "$ROOT"), Model: strings.ReplaceAll(m2, root, "$ROOT")})
+			}
+			if d := c13TreeDiff(after2, c13ParseTree(parts2[1]), []string{root}); len(d) > 0 {
+				if len(d) > 8 {
+					d = d[:8]
+				}
+				for i := range d {
+					d[i] = strings.ReplaceAll(d[i], root, "$ROOT")
+				}
+				r.violate(Violation{Kind: "correspondence", Key: "C13:model-tree-restart", Broken: "correspondence moveOut, second pass (file tree)",
+					What: "second pass over the same record: file tree differs between the real code and the model", Input: cas, Impl: d})
+			}
+		}
 	}
 	if idx%400 == 0 {
 		r.sample(map[string]interface{}{"direct": cas.Outs, "types": c13EncParams(params), "result": strings.ReplaceAll(realStr, root, "$ROOT")})
